@@ -184,7 +184,10 @@ fn add_types_recursive(
 ) {
     #[cfg(feature = "verif-hooks")]
     crate::verif::point("walk:type");
-    types.insert(ty);
+    if !types.insert(ty) {
+        // Already visited along with everything reachable from it.
+        return;
+    }
 
     match &module.types[ty].inner {
         naga::TypeInner::Pointer { base, .. } => add_types_recursive(types, module, *base),
